@@ -3,8 +3,8 @@
 usage: record_seeds_v.py [t ...]   (default: all of 1..10); several t are processed side by side."""
 import os, re, subprocess, sys, json, shutil
 from concurrent.futures import ThreadPoolExecutor
-WAVE = os.environ.get("WAVE", "V"); N = {"V": 8, "W": 9, "Y": 10, "Z": 11, "Q": 12}[WAVE]
-SRC = {"V": "independent sub-agent (depth wave: effects that need a sequence of 4-5 operations over several blocks, an exact numeric coincidence, a second occurrence, or a two-party interleaving inside one block) given only two property texts and a scratch worktree", "W": "independent sub-agent (multi-token wave: the violation needs a pricing published in a second token, a particular or changing exchange rate, or a rate-feed outage at a particular moment; single-token behaviour unchanged) given only two property texts, a description of the TokenKeeper / module-service seams and a scratch worktree", "Y": "independent sub-agent (wave 10: cooperating sites, error paths actually taken, queue slips needing several contexts in one height bucket, values computed at one time and used at another, key encoding / cleanup for particular lengths and values, module-owned contexts across restart / import) given three property texts and a scratch worktree", "Z": "independent sub-agent (wave 11, hard mode: told which kinds of edit some two hundred earlier seeds had used and how the harness derives its expectations; asked for rare state combinations, effects only one query route or event shows, arithmetic corners) given two property texts and a scratch worktree", "Q": "independent sub-agent (wave 12: changes that sit in, or only take effect through, the module-service path — MsgCallService to a service reserved by another module, served synchronously by RequestModuleService) given three property texts, a description of that path and a scratch worktree"}[WAVE]
+WAVE = os.environ.get("WAVE", "V"); N = {"V": 8, "W": 9, "Y": 10, "Z": 11, "Q": 12, "R": 13}[WAVE]
+SRC = {"V": "independent sub-agent (depth wave: effects that need a sequence of 4-5 operations over several blocks, an exact numeric coincidence, a second occurrence, or a two-party interleaving inside one block) given only two property texts and a scratch worktree", "W": "independent sub-agent (multi-token wave: the violation needs a pricing published in a second token, a particular or changing exchange rate, or a rate-feed outage at a particular moment; single-token behaviour unchanged) given only two property texts, a description of the TokenKeeper / module-service seams and a scratch worktree", "Y": "independent sub-agent (wave 10: cooperating sites, error paths actually taken, queue slips needing several contexts in one height bucket, values computed at one time and used at another, key encoding / cleanup for particular lengths and values, module-owned contexts across restart / import) given three property texts and a scratch worktree", "Z": "independent sub-agent (wave 11, hard mode: told which kinds of edit some two hundred earlier seeds had used and how the harness derives its expectations; asked for rare state combinations, effects only one query route or event shows, arithmetic corners) given two property texts and a scratch worktree", "Q": "independent sub-agent (wave 12: changes that sit in, or only take effect through, the module-service path — MsgCallService to a service reserved by another module, served synchronously by RequestModuleService) given three property texts, a description of that path and a scratch worktree", "R": "independent sub-agent (wave 13, hard mode again, for the properties with the fewest seeds so far) given two property texts and a scratch worktree"}[WAVE]
 def one(t):
     res = []
     for var in "JK":
